@@ -13,7 +13,7 @@ def graph(ctx, quick):
     if quick:
         c.graph_leg(ctx, "Backward.tla", "backward", "Gen_Backward.cfg", {}, 0, 4, 0, "Sim_Backward.cfg", 120, 9)
     else:
-        c.graph_leg(ctx, "Backward.tla", "backward", "Gen_Backward_3.cfg", {}, 0, 4, 0, "Sim_Backward.cfg", 6000, 9, timeout=3000)
+        c.graph_leg(ctx, "Backward.tla", "backward", "Gen_Backward_3.cfg", {}, 0, 4, 0, "Sim_Backward.cfg", 1500, 9, timeout=3000)
 
 
 def traces(ctx, n):
